@@ -11,7 +11,7 @@ CONTRACT = ['C01_Fits', 'C01_NoSilentTruncation', 'C02_NoPanic', 'C02_PastEndIsE
 
 def consts(thorough):
     if thorough:
-        return dict(Sizes=set(range(12, 49)), RowLens={0, 1, 3, 5, 9}, MaxRows=5, MaxIdx=7, Tpls={1, 4, 9}, Menus={0, 3, 8}, ErrLens={0, 5}, ValLens={0, 2}, Msinks={False, True})
+        return dict(Sizes=set(range(14, 45)), RowLens={0, 1, 3, 5, 9}, MaxRows=5, MaxIdx=7, Tpls={4, 9}, Menus={0, 3, 8}, ErrLens={0, 5}, ValLens={0, 2}, Msinks={False, True})
     return dict(Sizes=set(range(18, 35)), RowLens={0, 1, 3, 5}, MaxRows=4, MaxIdx=6, Tpls={4}, Menus={0, 3}, ErrLens={0, 5}, ValLens={0}, Msinks={False, True})
 
 
@@ -129,7 +129,7 @@ def run(pid, tier, mc_invs, mine):
     out.add_tlc('RenderMC configuration emission', r)
     out.stage('B render on real code')
     tr = os.path.join(d, 'trace.ndjson')
-    core.run_harness(['render-cases', cp, tr], timeout=3000)
+    core.run_harness(['render-cases', cp, tr], timeout=9000)
     out.stage('C validate')
     open(os.path.join(w, 'rt.cfg'), 'w').write(trace_cfg(mine + ['Drift_Algo']))
     kinds = set()
